@@ -17,7 +17,7 @@ CLAIMED = {
             "trusted: Parse contract, path contracts, encoder stubs, file-system model (see assumptions in the evidence); bound = number of Add calls",
             "DESIGN.md 5 C03"),
     "C04": ("bounded symbolic model checking of the tree -> {value, children} conversion (the real toFormattedNode instantiations and the one-Encode-per-root loops of both API families) against the reference forest; the encoder libraries themselves are stubs",
-            "the bytes produced by encoding/json, yaml.v3 and go-toml (quoting of hostile names) cannot be encoded (reflection) and are outside the solver's claim; the native replays decode the real bytes of the solver's models with the real decoders",
+            "the bytes produced by encoding/json, yaml.v3 and go-toml (quoting of hostile names) cannot be encoded (reflection) and are outside the solver's claim; the native replays decode the real bytes of the solver's models with the real decoders, and on every run a fixed alphabet of 46 hostile names (quotes, YAML indicators, control characters, U+2028, HTML characters, null/true/1e3-like words, outer blanks) goes through JSON/YAML/TOML of both families and massive JSON on the real build and is decoded back (contract validation of the stub: concrete, not a solver verdict)",
             "DESIGN.md 5 C04"),
     "C05": ("bounded symbolic model checking of the walkers: every visit's Name/Branch/Row/Level/Path/HasChild equals the reference facts in text-output order for every forest up to the bound with opaque names and branch strings; the callback fails / the consumer breaks at a symbolic visit index and z3 decides that nothing is visited afterwards and the error is returned unchanged; the iterator forms run the real iter.Pull2 code",
             "trusted: Parse contract, path.Join contract on single-element names, iter.newcoro/coroswitch as coroutine hand-off; bound = number of nodes",
@@ -29,7 +29,7 @@ CLAIMED = {
             "trusted: bufio.Scanner/bufio.Writer contracts, encoder stubs perform one Write per Encode (the real yaml/toml encoders may split writes; covered only by native replays); short writes with nil error not modelled; massive-mode reader failures (k = 0 included, FIFO/LIFO/random schedules) and writer failures are part of this check; the failure value is solver-chosen among a fresh error, context.Canceled and context.DeadlineExceeded",
             "DESIGN.md 5 C14"),
     "C12": ("bounded symbolic model checking at byte level: every document of 1-2 rows of a few arbitrary bytes is run through the real parser and every sequential entry point; an interpreted panic or an exceeded step budget on any feasible path is a violation, and z3 decides that blank-only input gives empty output and nil; panic-freedom is also built into every harness of every other property",
-            "bound on row count/length is small (byte-level path explosion); over-long lines and massive mode are outside this check (C14, C10/C11); file system is the harness model",
+            "bound on row count/length with every byte arbitrary is small (byte-level path explosion); additionally long structured rows (prefix + 30/100 units of 1-, 2-, 3-byte characters or invalid bytes + one arbitrary byte) and the scanner's line limit on the real bufio.Scanner (65535 bytes fit, 65536 do not) on simple and massive routes; file system is the harness model",
             "DESIGN.md 5 C12"),
     "C15": ("bounded symbolic model checking of the notation family in two layers: the L-parse lemmas run the real Parser.Parse from every state an accepted prefix can leave, on rows whose name bytes are symbolic, and z3 decides that every spelling of a row yields the same (depth, text) resp. the right error class; an end-to-end harness (real parser + real tree code, no stub) compares the canonical spelling with every member of the notation family on small forests",
             "CRLF / final newline: the real bufio.Scanner, ScanLines and strings.Reader are executed from std's SSA (L-scan lemma on documents of <= 7 arbitrary bytes; end-to-end jobs with LF/CRLF per row, missing last terminator, trailing empty lines, also through massive mode); heading names assumed free of surrounding blanks; name length <= 3 bytes in the lemmas; outputs other than text rely on C01-C05 (same generator)",
@@ -50,13 +50,13 @@ CLAIMED = {
             "the input and configuration quantifiers are decided; the schedule quantifier only over the explored policies (each a legal Go schedule) - equality under every schedule is NOT claimed; no data-race detection; two known findings (mixed indentation units per block, partial mkdir when a root exists) are listed in known_findings.txt",
             "DESIGN.md 5 C10, 3.6"),
     "C11": ("bounded symbolic model checking of termination, error reporting and goroutine leaks of the real pipeline under the engine's scheduler: failing subsets of blocks in every stage, a failing reader, and cancellation of the caller's context at a symbolic synchronisation event; a blocked main goroutine with nothing runnable is reported as deadlock, after the return every runnable goroutine is run to quiescence and survivors are counted, and a vector-clock happens-before detector checks every load/store/map access/append of library code for unsynchronised conflicting accesses",
-            "schedules: FIFO/LIFO x first/last ready select case and 4-8 pseudo-random ones only (each a legal Go schedule; all schedules are NOT claimed). Data-race clause: every job runs with a happens-before (vector-clock, FastTrack-style) detector over the interpreted execution -- go, channels, select, Mutex, WaitGroup, errgroup, context, sync/atomic, sync.Pool are the synchronisation edges; a pair of unordered conflicting accesses in library code on an explored schedule is reported as race@<op> and confirmed on a -race build of the native harness (model, then the amplified scenario VerifRaceStress); sequential consistency is assumed for the values read (no weak-memory effects), memory touched only inside host-level stubs (encoders, color) is not tracked",
+            "schedules: FIFO/LIFO x first/last ready select case and 4-8 pseudo-random ones only (each a legal Go schedule; all schedules are NOT claimed); read-yield schedules for cancellation inside one long block (at most one more row read after the return). Data-race clause: every job runs with a happens-before (vector-clock, FastTrack-style) detector over the interpreted execution -- go, channels, select, Mutex, WaitGroup, errgroup, context, sync/atomic, sync.Pool are the synchronisation edges; a pair of unordered conflicting accesses in library code on an explored schedule is reported as race@<op> and confirmed on a -race build of the native harness (model, then the amplified scenario VerifRaceStress); sequential consistency is assumed for the values read (no weak-memory effects), memory touched only inside host-level stubs (encoders, color) is not tracked",
             "DESIGN.md 5 C11, 3.6"),
     "C16": ("bounded symbolic model checking of the CLI's flag-to-option wiring and exit-status logic: the three action functions and main() are executed with every flag value symbolic; the options they pass are applied by the real gtree.newConfig and z3 decides that the resulting configuration, writer and reader are what the flags denote, that every failure surfaces as a non-zero ExitCoder and success as nil, and that main exits non-zero exactly when App.Run failed",
             "library entry points, urfave/cli's parser, os.Open/Exit and the standard streams are stubs (contracts listed in the evidence); what the library does with the options is C01-C15; models of these jobs (witnesses and counterexamples) are replayed by a concrete CLI-vs-library differential run (engine/clireplay.go + replay/cliref: stdout, exit status, file-system snapshot, also with stdout=/dev/full); the App.Run stub's contract (usage failure => error or non-zero exit) is validated on the real binary for every class of usage failure (stray argument, unknown flag, unknown sub-command, unknown help topic, missing flag value, invalid duration) on every run -- that part is a concrete contract validation, not a solver verdict",
             "DESIGN.md 5 C16"),
     "C17": ("bounded symbolic model checking of a two-variant relational property: the tinywasm file set is regenerated from /repo as a second package of the same SSA program, both Output implementations run on the same symbolic documents and options, and z3 decides equal accept/reject decisions and equal output (text with opaque branch strings, JSON record, dry-run report)",
-            "the tinywasm constraint is emulated by file selection (same files the Go tool would select); Parse contract; encoder stubs; bound = rows",
+            "the tinywasm constraint is emulated by file selection (same files the Go tool would select); Parse contract; encoder stubs incl. the documented effect of encoder settings; byte-level names through the real path code; rows at the scanner's line limit through the real bufio.Scanner of both variants; bound = rows",
             "DESIGN.md 5 C17"),
 }
 
